@@ -183,7 +183,7 @@ impl TransportManagerHandle {
     }
 
     /// Check if the address is a local listen address and if so, discard it.
-    fn is_local_address(&self, address: &Multiaddr) -> bool {
+    pub(crate) fn is_local_address(&self, address: &Multiaddr) -> bool {
         // Strip the peer ID if present.
         let address: Multiaddr = address
             .iter()
